@@ -133,6 +133,8 @@ def run(ctx):
         acc = [s for s in paths.stores(f) if s["path"] == "acmod->n_mfc_frame" and s["op"] == "+="]
         ctx.check(r2, len(acc) == 2 and all(f.canon(s["rhs"], subst=False) == "nvec" for s in acc), key(f, "count"), f.where(f.root), "frames written are not added to n_mfc_frame")
 
+    feat_capacity_rule(ctx, P)
+
     # ---- TWIN -------------------------------------------------------------------------------------
     r3 = ctx.rule("TWIN.entry-points", "the int16 and float32 entry points (streaming and whole-utterance, acoustic model and decoder level) are the same algorithm up to the front-end call", floor=3)
     def neutral(t):
@@ -241,3 +243,32 @@ def run(ctx):
         ctx.check(r5, len(gs) == 1 and f.canon(f.args(gs[0])[1], subst=False) == "1" and paths.guarded(f, gs[0], lambda fn, cc, pol: paths.cond_atoms(fn, cc, pol, subst=False) == ("no_search", True)), key(f, "grow-when-buffering"), f.where(f.root), "buffer-only processing does not switch the feature buffer to growing mode")
         fw = f.calls("search_module_forward")
         ctx.check(r5, len(fw) == 1 and paths.guarded(f, fw[0], lambda fn, cc, pol: paths.cond_atoms(fn, cc, pol, subst=False) == ("no_search", False)), key(f, "search-unless-buffering"), f.where(f.root), "search is not skipped exactly when no_search is set")
+
+
+def feat_capacity_rule(ctx, P):
+    """the quantity the feature ring is grown / clamped for is the quantity its
+    wrap-around tests use: all comparisons of a write position against
+    n_feat_alloc in acmod_process_cep are about inptr + nfeat"""
+    rid = ctx.rule("RING.feat-capacity", "in acmod_process_cep the growing loop, the drop-at-end test and the two-part write test all compare the same quantity (write position + features to be produced) with the allocation, so that growing mode never reaches the branch that drops the trailing frames", floor=3)
+    pc = P.fn("acmod_process_cep", "acmod.c")
+    ctx.touch(pc)
+    forms = []
+    for (s0, d0, cc, pol) in pc.cfg.cond_edges():
+        if not pol:
+            continue
+        r = paths.rel(pc, cc, True, subst=False)
+        if r is None:
+            continue
+        for side, other in ((r[0], r[2]), (r[2], r[0])):
+            if other == "acmod->n_feat_alloc" and "inptr" in side:
+                forms.append((side, pc.line(cc)))
+    want = "(inptr + nfeat)"
+    ctx.check(rid, len(forms) >= 3, "acmod_process_cep:tests", pc.where(pc.root), "expected the grow loop, the drop test and the two-part test (found %d position tests)" % len(forms))
+    seen = set()
+    for (side, line) in forms:
+        k = "acmod_process_cep:test#%d" % (len([x for x in seen if x == side]) + len(seen) + 1)
+        seen.add((side, line))
+        ctx.check(rid, side == want, k, "src/acmod.c:%d" % line, "this test compares `%s` with the allocation while the others use `%s`: the buffer is grown (or the write split) for a different number of frames than will be produced, and the end-of-utterance frames can be dropped" % (side, want))
+    # growing happens in a loop until the write fits
+    gl = [w for w in pc.find("While") if pc.calls("acmod_grow_feat_buf", root=w)]
+    ctx.check(rid, len(gl) == 1 and paths.rel(pc, pc.ch(gl[0])[0], True, subst=False) == ("acmod->n_feat_alloc", "<=", want), "acmod_process_cep:grow-loop", pc.where(pc.root), "the feature buffer is not grown while inptr + nfeat >= n_feat_alloc")
